@@ -73,3 +73,21 @@ mem("SeriesCacheMem_mc4_big.cfg", 3, 2, 1, 0, 1, 2, "TRUE")
 mem("SeriesCacheMem_nolimit_big.cfg", 2, 0, 0, 2, 1, 2, "TRUE")
 mem("SeriesCacheMem_orig.cfg", 2, 3, 2, 1, 2, 1, "FALSE")
 mem("SeriesCacheMem_orig2.cfg", 3, 3, 2, 2, 1, 2, "FALSE", inv="TypeOK")
+
+
+def shard(name, NB, N0, MaxInv, MaxTrimWalks, MaxEvict, MaxReset, UnlinkFirst, inv="ListOK CursorsOK InvReachesAll InvOwesAhead"):
+    open(name, "w").write("""SPECIFICATION Spec
+CONSTANTS
+  NB = %s
+  N0 = %s
+  MaxInv = %s
+  MaxTrimWalks = %s
+  MaxEvict = %s
+  MaxReset = %s
+  UnlinkFirst = %s
+INVARIANTS %s
+CHECK_DEADLOCK FALSE
+""" % (NB, N0, MaxInv, MaxTrimWalks, MaxEvict, MaxReset, UnlinkFirst, inv))
+shard("SeriesCacheShard_mc.cfg", 4, 3, 1, 1, 1, 1, "FALSE")
+shard("SeriesCacheShard_seed.cfg", 4, 3, 1, 1, 1, 1, "TRUE", inv="ListOK InvReachesAll")
+shard("SeriesCacheShard_mc_big.cfg", 6, 4, 2, 2, 2, 1, "FALSE")
